@@ -334,7 +334,205 @@ macro_rules! ident_decode {
 
 ident_decode!(identde_q_dbwa, RDBWA, bytes = 1, len = 4);
 ident_decode!(identde_q_r9, R9, bytes = 2, len = 9);
-ident_decode!(identde_t_r8, R8, bytes = 1, len = 8);
+ident_decode!(identde_q_r8, R8, bytes = 1, len = 8);
 ident_decode!(identde_t_r0, R0, bytes = 0, len = 0);
 ident_decode!(identde_t_r1, R1, bytes = 1, len = 1);
 
+
+// ------------------------------------------------------------------------------------------
+// Allocator section of a serialized world: `from_serialized_parts` on arbitrary (untrusted)
+// identifiers, and serialize -> deserialize of a valid allocator.
+// ------------------------------------------------------------------------------------------
+
+use super::world::*;
+use crate::{
+    archetypes::Archetypes,
+    entity::allocator::{
+        Allocator,
+        DeserializeAllocator,
+        Location,
+    },
+    registry::Registry,
+};
+use serde::de::DeserializeSeed;
+
+/// A table of two archetypes (component sets {A,B} and {A}) whose identifier columns hold the
+/// given, completely arbitrary identifiers.
+fn table_with_ids<const N1: usize, const N2: usize>(
+    ids1: &[entity::Identifier; N1],
+    ids2: &[entity::Identifier; N2],
+) -> Archetypes<RAB> {
+    let bits1 = [true, true];
+    let bits2 = [true, false];
+    let id1 = ident::<RAB>(bits_to_bytes(&bits1));
+    let id2 = ident::<RAB>(bits_to_bytes(&bits2));
+    // SAFETY: the buffers are moved into the archetypes below and live as long as the table.
+    let (r1, r2) = unsafe { (id1.as_ref(), id2.as_ref()) };
+    let a1 = any_archetype::<RAB>(id1, &bits1, N1, N1, ids1);
+    let a2 = any_archetype::<RAB>(id2, &bits2, N2, N2, ids2);
+    let mut table = hashbrown::raw::RawTable::new();
+    table.insert(0, a1, |_| 0);
+    table.insert(0, a2, |_| 0);
+    let mut flookup = hashbrown::HashMap::with_hasher(fnv::FnvBuildHasher::default());
+    // SAFETY: the identifier buffers outlive the map.
+    unsafe {
+        flookup.insert_unique_unchecked(r1.as_slice(), r1);
+        flookup.insert_unique_unchecked(r2.as_slice(), r2);
+    }
+    let tlookup = hashbrown::HashMap::with_hasher(fnv::FnvBuildHasher::default());
+    Archetypes::<RAB>::verif_from_parts(table, tlookup, flookup)
+}
+
+macro_rules! alloc_untrusted {
+    ($name:ident, length = $L:expr, free = $F:expr, stored = ($N1:expr, $N2:expr)) => {
+        #[kani::proof]
+        #[kani::unwind(12)]
+        #[kani::stub(alloc::fmt::format, stub_format)]
+        pub fn $name() {
+            const L: usize = $L;
+            const F: usize = $F;
+            const N1: usize = $N1;
+            const N2: usize = $N2;
+            const T: usize = F + N1 + N2;
+            // every identifier in the input is arbitrary: duplicates, out of range, listed both as
+            // free and as stored, too few, too many are all just values of these variables
+            let mut all = [entity::Identifier::new(0, 0); T];
+            let mut i = 0;
+            while i < T {
+                let index: usize = kani::any();
+                kani::assume(index < 8);
+                all[i] = entity::Identifier::new(index, kani::any());
+                i += 1;
+            }
+            let mut free = Vec::with_capacity(F);
+            let mut i = 0;
+            while i < F {
+                free.push(all[i]);
+                i += 1;
+            }
+            let mut ids1 = [entity::Identifier::new(0, 0); N1];
+            let mut ids2 = [entity::Identifier::new(0, 0); N2];
+            let mut i = 0;
+            while i < N1 {
+                ids1[i] = all[F + i];
+                i += 1;
+            }
+            let mut i = 0;
+            while i < N2 {
+                ids2[i] = all[F + N1 + i];
+                i += 1;
+            }
+            let archetypes = table_with_ids::<N1, N2>(&ids1, &ids2);
+
+            // reference verdict: every slot 0..L accounted for exactly once
+            let mut valid = T == L;
+            let mut i = 0;
+            while i < T {
+                if all[i].index >= L {
+                    valid = false;
+                }
+                let mut j = 0;
+                while j < i {
+                    if all[j].index == all[i].index {
+                        valid = false;
+                    }
+                    j += 1;
+                }
+                i += 1;
+            }
+
+            match Allocator::<RAB>::verif_from_serialized_parts::<Err>(L, free, &archetypes) {
+                Ok(a) => {
+                    vassert!(valid, "an input that does not account for every slot exactly once is rejected");
+                    vassert!(a.slots.len() == L, "slot table has the declared length");
+                    vassert!(alloc_inv(&a), "AllocInv holds for an accepted allocator");
+                    vassert!(a.free.len() == F, "free list has the given length");
+                    let mut i = 0;
+                    while i < F {
+                        vassert!(a.free[i] == all[i].index, "free list keeps the given order");
+                        vassert!(a.slots[all[i].index].generation == all[i].generation, "freed slots keep their generation");
+                        i += 1;
+                    }
+                    let list = archs(&archetypes);
+                    let mut k = 0;
+                    while k < 2 {
+                        if let Some(arch) = list[k] {
+                            vassert!(link_ok(arch, &a), "every stored identifier resolves to its own row");
+                        }
+                        k += 1;
+                    }
+                }
+                Result::Err(_) => vassert!(!valid, "an input that accounts for every slot exactly once is accepted"),
+            }
+            kani::cover!(valid || T != L, "accepted input");
+            kani::cover!(!valid || T == 0, "rejected input");
+            core::mem::forget(archetypes);
+        }
+    };
+}
+
+alloc_untrusted!(allocde_t_l3_f1_s11, length = 3, free = 1, stored = (1, 1));
+alloc_untrusted!(allocde_q_l2_f2_s00, length = 2, free = 2, stored = (0, 0));
+alloc_untrusted!(allocde_t_l2_f2_s10, length = 2, free = 2, stored = (1, 0));
+alloc_untrusted!(allocde_t_l4_f2_s11, length = 4, free = 2, stored = (1, 1));
+alloc_untrusted!(allocde_t_l3_f0_s21, length = 3, free = 0, stored = (2, 1));
+alloc_untrusted!(allocde_t_l0_f0_s00, length = 0, free = 0, stored = (0, 0));
+alloc_untrusted!(allocde_q_l1_f1_s10, length = 1, free = 1, stored = (1, 0));
+alloc_untrusted!(allocde_q_l3_f1_s10, length = 3, free = 1, stored = (1, 0));
+
+macro_rules! alloc_roundtrip {
+    ($name:ident, free = $F:expr, stored = ($N1:expr, $N2:expr), human_readable = $HR:expr) => {
+        #[kani::proof]
+        #[kani::unwind(28)] // VecDeque<usize> equality is a memcmp over up to 3 * 8 bytes
+        #[kani::stub(alloc::fmt::format, stub_format)]
+        pub fn $name() {
+            const F: usize = $F;
+            const N1: usize = $N1;
+            const N2: usize = $N2;
+            const S: usize = F + N1 + N2;
+            // a valid world's allocator + table (LinkInv), symbolic slot assignment and generations
+            let id1 = ident::<RAB>(bits_to_bytes(&[true, true]));
+            let id2 = ident::<RAB>(bits_to_bytes(&[true, false]));
+            // SAFETY: the buffers outlive the allocator below.
+            let (r1, r2) = unsafe { (id1.as_ref(), id2.as_ref()) };
+            let (original, ids1, ids2, _free) = any_linked2::<RAB, S, F, N1, N2>(r1, r2, r1);
+            // the decoded world has its own archetypes (its own identifier buffers)
+            let archetypes = table_with_ids::<N1, N2>(&ids1, &ids2);
+            let mut ser = Ser::new($HR);
+            vassert!(serde::Serialize::serialize(&original, &mut ser).is_ok(), "a valid allocator serializes");
+            let mut de = De::new(ser.toks, ser.len, $HR);
+            match DeserializeAllocator::new(&archetypes).deserialize(&mut de) {
+                Ok(mut back) => {
+                    vassert!(de.pos == ser.len, "the decoder consumes exactly what the encoder wrote");
+                    vassert!(back == original, "decoded allocator equals the original (slots, generations, locations by component set and row, free-list order)");
+                    vassert!(alloc_inv(&back), "AllocInv holds for the decoded allocator");
+                    let list = archs(&archetypes);
+                    let mut k = 0;
+                    while k < 2 {
+                        if let Some(arch) = list[k] {
+                            vassert!(link_ok(arch, &back), "every stored identifier resolves to its own row in the decoded world");
+                        }
+                        k += 1;
+                    }
+                    // behaves identically afterwards, one step deep: the next identifier issued is the same
+                    let mut orig = original;
+                    let a = orig.allocate(Location::new(r1, 0));
+                    let b = back.allocate(Location::new(r1, 0));
+                    vassert!(a == b, "original and decoded allocator issue the same next identifier");
+                    core::mem::forget(orig);
+                    core::mem::forget(back);
+                }
+                Result::Err(_) => vassert!(false, "deserializing a serialized allocator succeeds"),
+            }
+            kani::cover!(true, "reached end");
+            core::mem::forget(archetypes);
+            core::mem::forget(id1);
+            core::mem::forget(id2);
+        }
+    };
+}
+
+alloc_roundtrip!(allocrt_q_f1_s10_compact, free = 1, stored = (1, 0), human_readable = false);
+alloc_roundtrip!(allocrt_t_f2_s11_compact, free = 2, stored = (1, 1), human_readable = false);
+alloc_roundtrip!(allocrt_t_f2_s10_hr, free = 2, stored = (1, 0), human_readable = true);
+alloc_roundtrip!(allocrt_t_f0_s11, free = 0, stored = (1, 1), human_readable = false);
